@@ -327,16 +327,13 @@ theorem registerT_always (lvl : Nat) (t : Tree) (h : (registerT lvl t).1 = .alwa
       by_cases hs : (registerT lvl o).1 = .sometimes
       · simp [hs] at h
       · simp only [hs, if_false] at h
-        by_cases hn : (registerT lvl i).1 = .never
-        · simp [hn] at h
-        · simp only [hn, if_false] at h
-          have hoa : (registerT lvl o).1 = .always := by
-            cases hh : (registerT lvl o).1 <;> simp_all
-          intro l hl
-          simp only [leaves, List.mem_append] at hl
-          rcases hl with hl | hl
-          · exact ihi h l hl
-          · exact iho hoa l hl
+        have hoa : (registerT lvl o).1 = .always := by
+          cases hh : (registerT lvl o).1 <;> simp_all
+        intro l hl
+        simp only [leaves, List.mem_append] at hl
+        rcases hl with hl | hl
+        · exact ihi h l hl
+        · exact iho hoa l hl
 
 /-- **C09.meta_veto_stops_all** — ANY tree (including layers that statically refuse callsites): if any
 layer's metadata check refuses, the front end's gate is closed — no event, no span reaches anyone -/
@@ -378,16 +375,15 @@ theorem absent_transparent (t : Tree) (h : NoNever t) (ha : AbsentPlain (leaves 
     vis (run t ops).log = (sRun (present (leaves t)) ops).log := by
   rw [refines_spec t h]; exact (sRun_rel _ ha ops).2.2.symm
 
-/-- **C09.f25_witness** — the full statement fails next to a layer that statically refuses a
-callsite (`register_callsite` = never): over the Registry every `and_then` has
-`inner_has_subscriber_filter` (the flag compares the COLLECTOR type), so an absent layer outside the
-refusing one turns the stack's `never` into `sometimes`, and the refusing layer is then asked
-`enabled` for every such event — something it does not observe without the absent layer -/
-theorem f25_witness :
+/-- F25 (repaired): next to a layer that statically refuses a callsite, an absent layer used to
+turn the stack's `never` into `sometimes` (every `and_then` believed its inner half was the
+registry), and the refusing layer was then asked `enabled` for every such event.  With the repair
+the refusing layer observes the same with and without the absent layer. -/
+theorem f25_repaired :
     let refusing : Tree := .leaf ⟨1, .never 4⟩
     let withNone : Tree := .node refusing (.leaf ⟨0, .plain⟩)
-    vis (run refusing [.event 36]).log = [(1, "on_subscribe"), (1, "on_register_dispatch"), (1, "register_callsite")] ∧
-    vis (run withNone [.event 36]).log = [(1, "on_subscribe"), (1, "on_register_dispatch"), (1, "register_callsite"), (1, "enabled")] := by
+    vis (run withNone [.event 36]).log = vis (run refusing [.event 36]).log ∧
+    vis (run refusing [.event 36]).log = [(1, "on_subscribe"), (1, "on_register_dispatch"), (1, "register_callsite")] := by
   decide
 
 /-! ### non-vacuity -/
